@@ -27,6 +27,7 @@ pub fn single(name: &str, cfg: Scenario, ack: bool, size: u64, dev: usize) -> DS
         horizon: 300,
         seq_start: None,
         bursts: false,
+        default_cfg: None,
     }
 }
 
@@ -195,8 +196,20 @@ pub fn c11_scenarios(tier: Tier) -> Vec<DScn> {
         horizon: 400,
         seq_start: None,
         bursts: false,
+        default_cfg: None,
     };
     v.push(base.clone());
+    // per-entity configuration: each daemon holds an entry for its peer (immediate NAK, limit 2);
+    // its default configuration is different (deferred NAK, limit 1, abandon) and must not be used
+    let mut pe = base.clone();
+    pe.name = "c11 per-entity configuration differs from the default: T1 A->B ack, T2 B->A unack".into();
+    pe.cfg.nak_immediate = true;
+    let mut dflt = cfg.clone();
+    dflt.max_count = 1;
+    dflt.handlers = vec![(1, 3), (7, 3), (8, 3)];
+    pe.default_cfg = Some(dflt);
+    pe.delay = true;
+    v.push(pe);
     // a burst of copies of one PDU, more than the command queue of its transaction holds
     let mut bu = base.clone();
     bu.name = "c11 two daemons: T1 A->B ack, T2 B->A unack + burst".into();
